@@ -1,4 +1,4 @@
-import Proofs.Machine.Claims
+import Proofs.Machine.BodyOrder
 /-!
 C01 — every hunk line is shown exactly once, in order, with its text intact (unified view).
 
@@ -99,5 +99,53 @@ def exampleLine : L :=
     blame := false, grep := 0, submodule := none }
 
 example : prepare {} 1 exampleLine = "a        b".toList := by decide
+
+-- whole runs --------------------------------------------------------------------
+
+/-- **`hunk_rows_in_input_order`** (whole runs, every configuration, every input that opens no
+merge-conflict region — conflict regions show ancestor lines twice by design): in delta's output the
+rows that show hunk lines (kinds minus / plus / zero / other) carry strictly increasing input
+indices. So no hunk line is shown twice and no two are swapped, whatever headers, decorations or
+pass-through lines are written between them. -/
+theorem hunk_rows_in_input_order {cfg : Cfg} {ls : List L} {m : M}
+    (hmc : ∀ l ∈ ls, startsWith l.text Generated.Markers.mcBegin = false) (e : run cfg ls = .ok m) :
+    ((m.out.filter (fun r => isBody r.kind)).map (·.src)).Pairwise (· < ·) :=
+  run_body_rows_increasing hmc e
+
+/-- **`hunk_line_shown_exactly_once`** (whole runs): in a git diff, a line whose first column is
+`+`, `-` or blank, met in a unified hunk state (not a commit line, not a 40-hex `Subproject commit`
+line), has exactly one row of kind minus / plus / zero / other in the final output — whatever
+precedes (`pre`) and follows (`post`) it. -/
+theorem hunk_line_shown_exactly_once {cfg : Cfg} {pre post : List L} {l : L} {mi m : M}
+    (hmc : ∀ x ∈ pre ++ l :: post, startsWith x.text Generated.Markers.mcBegin = false)
+    (ei : runFrom cfg {} pre = .ok mi) (hsrc : mi.source = .gitDiff) (hst : isHunkState mi.st = true)
+    (hun : hunkCombinedParents mi.st = none) (hb : firstIs l isMarker) (hc : l.commitRe = false)
+    (hsub : l.submodule = none) (e : run cfg (pre ++ l :: post) = .ok m) :
+    ((m.out.filter (fun r => isBody r.kind)).map (·.src)).count pre.length = 1 :=
+  run_hunk_line_exactly_once hmc ei hsrc hst hun hb hc hsub e
+
+/-- a concrete run meeting the hypotheses: line 5 (`-old`) is met in a hunk state of a git diff -/
+def mkL (s : String) : L :=
+  { raw := s.toList, text := s.toList, graphemes := s.toList.map (fun c => [c]),
+    commitRe := false, blame := false, grep := 0, submodule := none }
+
+def samplePre : List L :=
+  ["diff --git a/x b/x", "--- a/x", "+++ b/x", "@@ -1,2 +1,2 @@ fn f()", " ctx"].map mkL
+
+example : (match runFrom {} {} samplePre with
+    | .ok mi => mi.source == .gitDiff && isHunkState mi.st && (hunkCombinedParents mi.st).isNone
+    | .error _ => false) = true := by decide
+example : firstIs (mkL "-old") isMarker := ⟨'-', "old".toList, rfl, rfl⟩
+example : (match run {} (samplePre ++ mkL "-old" :: [mkL "+new", mkL "diff --git a/y b/y"]) with
+    | .ok m => (m.out.filter (fun r => isBody r.kind)).map (·.src) == [4, 5, 6]
+    | .error _ => false) = true := by decide
+
+/-- the hypothesis about conflict regions is needed: an ancestor line of a diff3 conflict region is
+shown twice (once per comparison), by design -/
+theorem conflict_region_shows_ancestor_twice :
+    (match run {} (["diff --cc x", "--- a/x", "+++ b/x", "@@@ -1,3 -1,3 +1,7 @@@", "++<<<<<<< HEAD", "+ ours",
+                    "++||||||| base", "++anc", "++=======", " +theirs", "++>>>>>>> other"].map mkL) with
+     | .ok m => ((m.out.filter (fun r => isBody r.kind)).map (·.src)).count 7
+     | .error _ => 0) = 2 := by decide
 
 end C01
